@@ -47,6 +47,9 @@ pub enum Fault {
     HandlerError,
     /// plaintext HTTP sent to a TLS acceptor
     PlainToTls,
+    /// duplex only: one client asks for an unusual stream buffer size (the size is the
+    /// client's to choose), sends a request through it and leaves
+    OddBuffer { size: usize },
 }
 
 #[derive(Clone, Debug, Serialize, Deserialize)]
@@ -85,6 +88,7 @@ fn fault_name(f: &Fault) -> &'static str {
         Fault::TlsStall { .. } => "tls_stall",
         Fault::HandlerError => "handler_error",
         Fault::PlainToTls => "plaintext_to_tls",
+        Fault::OddBuffer { .. } => "odd_duplex_buffer",
     }
 }
 
@@ -192,6 +196,19 @@ async fn run_fault(conn: Connector, tls: bool, f: Fault) {
             Fault::ConnectThenClose => {
                 let _ = conn.connect().await;
             }
+            Fault::OddBuffer { size } => {
+                if let Connector::Duplex(c) = &conn {
+                    if let Ok(mut io) = c.connect(size).await {
+                        let _ = tokio::time::timeout(Duration::from_millis(50), async {
+                            let _ = io.write_all(&request_bytes(900, 0, 0)).await;
+                            let _ = io.flush().await;
+                            let mut b = [0u8; 64];
+                            let _ = io.read(&mut b).await;
+                        })
+                        .await;
+                    }
+                }
+            }
             Fault::Garbage | Fault::TlsGarbage => {
                 if let Ok(mut io) = conn.connect().await {
                     let _ = io.write_all(b"\x00\xff\x13\x37 this is not a protocol\r\n\r\n\x16\x03").await;
@@ -270,9 +287,11 @@ async fn run_fault(conn: Connector, tls: bool, f: Fault) {
     .await;
 }
 
+const ODD_BUFFERS: [usize; 6] = [1, 7, 63, 65, 4097, 1 << 40];
+
 fn draw_fault(r: &mut Rng, net: NetKind, tls: bool) -> Fault {
     loop {
-        let f = match r.below(11) {
+        let f = match r.below(12) {
             0 => Fault::ConnectCancelled,
             1 => Fault::ConnectThenClose,
             2 => Fault::Garbage,
@@ -283,10 +302,11 @@ fn draw_fault(r: &mut Rng, net: NetKind, tls: bool) -> Fault {
             7 => Fault::TlsTruncated { at: r.range(0, 260) as usize },
             8 => Fault::TlsStall { at: r.range(0, 260) as usize },
             9 => Fault::HandlerError,
+            10 => Fault::OddBuffer { size: *r.pick(&ODD_BUFFERS) },
             _ => Fault::PlainToTls,
         };
         let ok = match f {
-            Fault::ConnectCancelled => net == NetKind::Duplex,
+            Fault::ConnectCancelled | Fault::OddBuffer { .. } => net == NetKind::Duplex,
             Fault::TlsGarbage | Fault::TlsTruncated { .. } | Fault::TlsStall { .. } | Fault::PlainToTls => tls,
             _ => true,
         };
@@ -304,6 +324,9 @@ fn enumerated() -> Vec<SrvFaultCase> {
             let mut faults = vec![Fault::ConnectThenClose, Fault::Garbage, Fault::HandlerError];
             if net == NetKind::Duplex {
                 faults.push(Fault::ConnectCancelled);
+                for size in ODD_BUFFERS {
+                    faults.push(Fault::OddBuffer { size });
+                }
             }
             for at in [0usize, 1, 4, 17, 40, 80, 200] {
                 faults.push(Fault::TruncatedHead { at });
